@@ -464,6 +464,14 @@ class Model():
                 for model_attacker in self.attackers):
             raise ValueError('Attacker is already part of the model.')
 
+        if attacker_id is not None and (
+                not isinstance(attacker_id, int)
+                or isinstance(attacker_id, bool)):
+            # next_id is derived from it and asset ids must be integers
+            raise ValueError(
+                f'Attacker id {attacker_id!r} is not an integer.'
+            )
+
         if attacker_id is not None:
             attacker.id = attacker_id
         else:
